@@ -159,6 +159,10 @@ def replay(case):
 def run(rep, tier, seed):
     plan = dyn.standard_plan(tier, CHAINS, CHAINS_HI, held_lo='full', held_hi='two' if tier == 'quick' else 'small', sigma_hi='door5')
     rep.bounds['chains'] = ['+'.join(c) for c in CHAINS]
+    # colourless (Color.NONE) doors and keys: an empty hand also has colour NONE
+    for sh in ((1, 2), (1, 3), (2, 2)):
+        plan.append(dict(shape=sh, sigma='door0', k=2, held='key0', chains=[('actuate_door',), dyn.CHAIN_KEYDOOR, dyn.CHAIN_FULL],
+                         actions=R.ACTIONS))
     tot = dyn.run_universe(rep, plan, _worker, replay)
     if tier == 'quick':
         names, init_limit, max_states, gcap = ['keydoor.5x5', 'keydoor.7x7'], 300, 40000, 6
